@@ -86,7 +86,12 @@ TraceRet ==
   /\ UNCHANGED <<kind, N, page, out, pend>>
 
 TraceInit == l = 1 /\ kind = "v4" /\ N = 0 /\ page = 0 /\ out = {} /\ pend = << >>
-TraceNext == TraceReset \/ TraceAlloc \/ TraceFree \/ TraceSet \/ TraceClear \/ TraceRet
+\* pools of 2^64 blocks and more: refused by the constructor, or else an allocator that has blocks to give (C05: Allocate fails
+\* iff all N blocks are outstanding - none is)
+TraceHuge == /\ IsEvent("huge")
+             /\ ("C05" \in Lens) => (Trace[l].ctor = "err" \/ (Trace[l].ctor = "ok" /\ Trace[l].alloc = "ok"))
+             /\ UNCHANGED <<kind, N, page, out, pend>>
+TraceNext == TraceReset \/ TraceAlloc \/ TraceFree \/ TraceSet \/ TraceClear \/ TraceRet \/ TraceHuge
 TraceSpec == TraceInit /\ [][TraceNext]_tvars
 
 \* harness-side sanity (a violation is a harness error, not a verdict)
